@@ -235,3 +235,14 @@ PROPS["C20"] = dict(
     rule="one case per configuration; elementary_evaluations counts rendered samples; non-trivial when the full measurement stayed inside the thresholds",
     assumptions=["signal thresholds are the statement's; zero-crossing estimator validated in the design probes (0.16 % at >= 22.05 kHz)", "real cores, shipped configuration (-O2 -DNDEBUG)"],
 )
+
+PROPS["C18"] = dict(
+    level="model_checking", engine="mcx", title="settings are transactional: accepted values stick, rejected change nothing",
+    technique="explicit-state model checking of the real setter/getter/reset/load API (BFS by history replay from two start states) against a reference settings record; full private-state snapshot comparison around every failing call",
+    level_text="All sequences up to the completed depth over 87 operations (every setter with in-range, boundary and invalid arguments, hooks, opn2_reset, emulator switches, valid/garbage/truncated/empty bank files, valid/garbage/truncated/zero-division music files, track and channel options, device-addressed SysEx, a playback probe) "
+               "are executed; after every call all getters and the privately visible settings must equal the reference record, and a call that reports failure must leave the complete snapshot (player, synth, sequencer, hooks, running chips) unchanged and, for files, a non-empty error text.",
+    level_note="void setters with out-of-range arguments make the affected setting 'unknown' until the next in-range set (the statement defines nothing there); whether the previous song survives a rejected music file is a don't-care; the playback clock fields (delay, carry, skip counter) are not settings and are excluded from the snapshot; emulator ids 32+ (shift aliasing) belong to C03",
+    legs=[Leg("settings", ["models/c18_settings.cpp"], "fast", ["--depth", "3"], ["--depth", "4"], timeout_thorough=14000)],
+    rule="BFS; a state is distinct when the snapshot or the reference record differs",
+    assumptions=RT_ASSUME[:2],
+)
